@@ -10,15 +10,15 @@ LOG=/tmp/wt/$ID.confirm.log
 exec > $LOG 2>&1
 set -x
 cd $WT || exit 1
-rm -rf /tmp/wt/$ID.mutant && mv mutant /tmp/wt/$ID.mutant
+[ -d mutant ] && { rm -rf /tmp/wt/$ID.mutant; mv mutant /tmp/wt/$ID.mutant; }
 git status --short
 export GOTOOLCHAIN=local
 unset GOFLAGS
 go build -mod=mod ./... && echo "CONFIRM build=ok"
 cp /tmp/wt/$ID.mutant/demo_test.go $DEMODIR/zz_demo_test.go
-go test -mod=mod -vet=off -count=1 -run 'Demo|demo|ZZ|C[0-9][0-9]' ./$DEMODIR 2>&1 | grep -E "^(--- FAIL|FAIL|ok|panic)" | head; echo "CONFIRM demo_with_change_exit=${PIPESTATUS[0]}"
+go test -mod=mod -vet=off -count=1 -run 'Demo|demo|ZZ|C[0-9][0-9]|Tombstone' ./$DEMODIR 2>&1 | grep -E "^(--- FAIL|FAIL|ok|panic)" | head; echo "CONFIRM demo_with_change_exit=${PIPESTATUS[0]}"
 git stash -q -- $(git diff --name-only)
-go test -mod=mod -vet=off -count=1 -run 'Demo|demo|ZZ|C[0-9][0-9]' ./$DEMODIR 2>&1 | grep -E "^(--- FAIL|FAIL|ok|panic)" | head; echo "CONFIRM demo_without_change_exit=${PIPESTATUS[0]}"
+go test -mod=mod -vet=off -count=1 -run 'Demo|demo|ZZ|C[0-9][0-9]|Tombstone' ./$DEMODIR 2>&1 | grep -E "^(--- FAIL|FAIL|ok|panic)" | head; echo "CONFIRM demo_without_change_exit=${PIPESTATUS[0]}"
 git stash pop -q
 rm -f $DEMODIR/zz_demo_test.go
 git status --short
